@@ -37,6 +37,118 @@ def literals_in(fn):
                     if y.get('k') == 'StringLiteral': out.append((A.callee_name(x), y.get('s'), x))
     return out
 
+def r11_5(chk, facts):
+    """Annotations of a sub-schema evaluated against a local error collector are merged only under a test of that collector."""
+    chk.rule('R11.5', 'annotation merge: evaluation results filled by a sub-schema that reports into a local collecting_error_listener are merged '
+                      'into the outer results only under a dominating test of that collector (errors empty / error count unchanged / a success '
+                      'counter fed by such a test); otherwise a failed branch marks properties as evaluated', floor=5)
+    n = 0; seen = set()
+    for fn in facts.functions:
+        if fn.get('dep') or fn.get('body') is None or fn['n'] != 'do_validate' or not fn['file'].endswith(('keyword_validator.hpp', 'schema_validator.hpp')): continue
+        key = (fn['file'], fn['l'])
+        if key in seen: continue
+        seen.add(key)
+        res_loc = {}; rep_loc = {}; inits = {}
+        for x in A.walk_no_lambda(fn['body']):
+            if x.get('k') == 'VarDecl' and x.get('t'):
+                t = fn['_types'][x['t'] - 1]
+                if 'evaluation_results' in t and '&' not in t: res_loc[x['id']] = x['n']
+                if 'collecting_error_listener' in t and '&' not in t: rep_loc[x['id']] = x['n']
+                if x.get('init') is not None: inits[x['id']] = x
+        if not res_loc: continue
+        def refs(e, table):
+            return set(y['id'] for y in A.walk(e) if y.get('k') == 'DeclRefExpr' and y.get('id') in table)
+        # reporters feeding each local results object
+        feed = {i: set() for i in res_loc}
+        merges = []
+        for c in A.calls_in(fn['body'], no_lambda=True):
+            nm = A.callee_name(c)
+            if nm in ('validate', 'do_validate', 'walk'):
+                rs = set(); ls = set()
+                for a in c.get('args') or []:
+                    rs |= refs(a, rep_loc); ls |= refs(a, res_loc)
+                for l in ls: feed[l] |= rs
+            if nm == 'merge' and c.get('k') == 'CXXMemberCallExpr' and c.get('args'):
+                src = refs(c['args'][0], res_loc)
+                dst = refs(c.get('obj'), res_loc)
+                if src: merges.append((c, src, dst))
+        # a results object that is only ever filled by (guarded) merges holds successful annotations only: the obligation is on the
+        # merges whose source was handed to a sub-schema together with a local collector
+        if not merges: continue
+        chk.analysed(fn)
+        g = C.CFG(fn['body'])
+        # variables derived from a collector: initialised from it, or counters incremented only under a test of it
+        def mentions_rep(e, reps, derived):
+            # a read of the collector's error list (R.errors...), or of a variable derived from one
+            for y in A.walk(e):
+                if y.get('k') == 'MemberExpr' and y.get('n') == 'errors':
+                    b = A.strip(y.get('base'), casts=True)
+                    if b is not None and b.get('k') == 'DeclRefExpr' and b.get('id') in reps: return True
+                if y.get('k') == 'DeclRefExpr' and y.get('id') in derived: return True
+            return False
+        cls = A.strip_targs(fn.get('cls') or '').split('::')[-1]
+        for i, (c, src, dst) in enumerate(merges):
+            reps = set()
+            for s_ in src: reps |= feed[s_]
+            if not reps: continue
+            n += 1
+            derived = set(i2 for i2, d in inits.items() if mentions_rep(d['init'], reps, set()))
+            # success counters
+            for x in A.walk_no_lambda(fn['body']):
+                if x.get('k') == 'UnaryOperator' and x.get('op') == '++':
+                    v = A.strip(x.get('sub'), casts=True)
+                    nd = g.node_of(x)
+                    if v is not None and v.get('k') == 'DeclRefExpr' and nd is not None and any(mentions_rep(a, reps, derived) for a, lab, e in g.guards(nd)):
+                        derived.add(v.get('id'))
+            nd = g.node_of(c)
+            ok = nd is not None and any(mentions_rep(a, reps, derived) for a, lab, e in g.guards(nd))
+            site = U.site(fn, 'merge#%d of %s' % (i + 1, '/'.join(sorted(res_loc[s_] for s_ in src))))
+            if ok: chk.ok('R11.5', site, {'class': cls, 'line': c.get('l'), 'collector': sorted(rep_loc[r] for r in reps)})
+            else: chk.fail('R11.5', site, fn['file'], c.get('l'), '%s: the annotations in `%s` come from a sub-schema that reported into the local collector `%s`, and they are merged without a test of that collector: a failed branch contributes evaluated properties/items' % (
+                cls, '/'.join(sorted(res_loc[s_] for s_ in src)), '/'.join(sorted(rep_loc[r] for r in reps))), None, fn['q'])
+    chk.require(n >= 5, 'R11.5: only %d guarded annotation merges found' % n)
+
+def r11_6(chk, facts):
+    """Annotations handed back to the caller are selected by the caller's evaluation flags."""
+    chk.rule('R11.6', 'annotation hand-back: a schema validator copies its local evaluated properties/items into the caller\'s results only under a test '
+                      'of the flags of the context it was called with (not of the context it widened for its own unevaluated* keywords)', floor=2)
+    n = 0; seen = set()
+    for fn in facts.functions:
+        if fn.get('dep') or fn.get('body') is None or fn['n'] != 'do_validate' or not fn['file'].endswith('schema_validator.hpp'): continue
+        if (fn['file'], fn['l']) in seen: continue
+        seen.add((fn['file'], fn['l']))
+        params = {p_['id']: p_ for p_ in fn['params']}
+        ctx_param = next((p_['id'] for p_ in fn['params'] if 'eval_context' in F.tname(fn, p_['t'])), None)
+        res_param = next((p_['id'] for p_ in fn['params'] if 'evaluation_results' in F.tname(fn, p_['t'])), None)
+        if ctx_param is None or res_param is None: continue
+        local_ctx = set(); local_res = set()
+        for x in A.walk_no_lambda(fn['body']):
+            if x.get('k') == 'VarDecl' and x.get('t'):
+                t = fn['_types'][x['t'] - 1]
+                if 'eval_context' in t: local_ctx.add(x['id'])
+                if 'evaluation_results' in t and '&' not in t: local_res.add(x['id'])
+        g = None
+        for c in A.calls_in(fn['body'], no_lambda=True):
+            if A.callee_name(c) != 'merge' or c.get('k') != 'CXXMemberCallExpr' or not c.get('args'): continue
+            o = A.strip(c.get('obj'), casts=True)
+            if o is None or o.get('k') != 'DeclRefExpr' or o.get('id') != res_param: continue
+            if not any(y.get('k') == 'DeclRefExpr' and y.get('id') in local_res for y in A.walk(c['args'][0])): continue
+            if g is None: g = C.CFG(fn['body']); chk.analysed(fn)
+            nd = g.node_of(c)
+            n += 1
+            caller = False; widened = False
+            for a, lab, e in (g.guards(nd) if nd is not None else []):
+                ids = set(y.get('id') for y in A.walk(a) if y.get('k') == 'DeclRefExpr')
+                if 'flags' in A.text(a) or 'require_evaluated' in A.text(a):
+                    if ctx_param in ids: caller = True
+                    if ids & local_ctx: widened = True
+            cls = A.strip_targs(fn.get('cls') or '').split('::')[-1]
+            site = U.site(fn, 'hand-back#%d' % n)
+            if caller and not widened: chk.ok('R11.6', site, {'class': cls, 'line': c.get('l')})
+            else: chk.fail('R11.6', site, fn['file'], c.get('l'), '%s: local annotations are merged into the caller\'s results %s: a child schema with its own unevaluated* keyword leaks its evaluated names into the parent location' % (
+                cls, 'under a test of the widened local context' if widened else 'without a test of the caller\'s evaluation flags'), None, fn['q'])
+    chk.require(n >= 2, 'R11.6: only %d annotation hand-backs found in schema_validator.hpp' % n)
+
 def run(chk, tier, only_rule=None):
     chk.explanation = EXPLANATION
     chk.not_decided = NOT_DECIDED
@@ -46,6 +158,8 @@ def run(chk, tier, only_rule=None):
     chk.rule('R11.2', 'keyword <-> factory method <-> validator class binding by name', floor=100)
     chk.rule('R11.3', 'is_valid and validate both evaluate root_->validate', floor=2)
     chk.rule('R11.4', 'reporter.error() results are returned or tested against walk_state::abort and propagated', floor=40)
+    r11_5(chk, facts)
+    r11_6(chk, facts)
     voc = vocab()
     # keywords looked up by the shared layers every dialect factory delegates to
     shared = {}
